@@ -370,5 +370,21 @@ fn index_k<K: Kind>(c: &FileCase, ctx: &mut Ctx) -> Result<(), Fail> {
     for i in [n, n + 1, usize::MAX] {
         ensure!(r3.read_nth_shape(i).is_none(), "nth-out-of-range", "read_nth_shape({}) returns something for n = {}", i, n);
     }
+    // the reader that served those random accesses iterates exactly as a fresh one does (with the index, and therefore
+    // as the one without): random access in the middle, then the whole sequence
+    for probe in [n / 2, n.saturating_sub(1)] {
+        if n == 0 {
+            break;
+        }
+        let _ = r3.read_nth_shape(probe);
+        let (items, over) = drain_capped(r3.iter_shapes(), n + 2);
+        ensure!(!over && items.len() == n, "count", "iteration after read_nth_shape({}) on the same reader yields {} of {} shapes", probe, items.len(), n);
+        for (i, it) in items.iter().enumerate() {
+            match it {
+                Ok(s) => ensure!(view_shape(s) == seq[i], "index-vs-sequential", "after read_nth_shape({}) on the same reader, iterated shape {} differs from the one a fresh reader yields", probe, i),
+                Err(e) => fail!("read-error", "iteration after read_nth_shape({}) on the same reader: item {}: {}", probe, i, err_str(e)),
+            }
+        }
+    }
     Ok(())
 }
